@@ -79,6 +79,8 @@ pub fn problems_for(tier: Tier, scope: Scope) -> Vec<(String, PProblem)> {
     if matches!(scope, Scope::Accounting | Scope::Reporting) {
         out.extend(family_cluster().into_iter().map(|p| ("cluster".to_string(), p)));
     }
+    // clustering x job attributes: every scope; of the hard rules those which do not need the schedule
+    out.extend(family_cluster_attr().into_iter().map(|p| ("cluster".to_string(), p)));
     out
 }
 
@@ -120,7 +122,12 @@ pub fn judge(family: &str, problem: &PProblem, cfg: &SolveCfg, scope: Scope) -> 
             let violations = findings
                 .into_iter()
                 .filter(|f| oracle::in_scope(f, scope))
-                .filter(|f| family != "cluster" || f.rule.starts_with("C02:") || f.rule == "C03:statistic-total")
+                .filter(|f| {
+                    family != "cluster"
+                        || f.rule.starts_with("C02:")
+                        || f.rule == "C03:statistic-total"
+                        || ["C01:skills", "C01:group", "C01:compatibility", "C01:capacity", "C01:negative-load"].contains(&f.rule.as_str())
+                })
                 .filter(|f| family != "reqbreak" || f.rule.starts_with("C02:") || f.rule.starts_with("C01:required-break") || f.rule == "C01:capacity")
                 .map(|f| (finding_key(&f, family, problem), f))
                 .filter(|(key, _)| seen.insert(key.clone()))
